@@ -3,14 +3,17 @@
    that C10 talks about; the check is C10's decidable clause on the observation. *)
 From Coq Require Import List Bool Arith String.
 Import ListNotations.
-From Lime Require Import Base.Res Hs.Types Hs.Server Hs.Monitor Corr.HsServer Corr.HsChecks Hs.Builder Corr.Builder.
+From Lime Require Import Base.Res Hs.Types Hs.Server Hs.Monitor Corr.HsServer Corr.HsChecks Hs.Builder Corr.Builder Hs.Pipelined Corr.PipeChecks.
 (* besides the scripted handshakes against a Server configured directly: ServerBuilders and the Servers they
    build (Corr/Builder.v) *)
 (* what a real WebSocket listener hands out: its configuration has a TLS part or not; a plain ws:// client got through
    or not, and what the accepted transport then said its encryption was; the same for a wss:// client *)
 Open Scope string_scope.
 Inductive wsl := KWsListener (tls_config : bool) (plain_ok : bool) (plain_enc : string) (tls_ok : bool) (tls_enc : string).
-Inductive case := KScript (c : scase) | KB (b : bcase) | KWsL (w : wsl).
+Inductive case := KScript (c : scase) | KB (b : bcase) | KWsL (w : wsl)
+(* a pipelined peer (Corr/PipeChecks.v): credentials written in clear behind the selection of an encryption are not
+   accepted after the switch either *)
+| KPipe (c : scase) (glued : list bool) (clear : list nat).
 (* the encryption a transport reports is the one its connection really has: a client that connected without TLS is
    never served by a transport that says "tls" (a TLS-only server would then take it for encrypted), and vice versa *)
 Definition wsl_ok (w : wsl) : bool :=
@@ -18,7 +21,11 @@ Definition wsl_ok (w : wsl) : bool :=
   | KWsListener _ pok penc tok tenc =>
       (if pok then String.eqb penc "none" else true) && (if tok then String.eqb tenc "tls" else true)
   end.
-Definition check (c : case) : bool := match c with KScript s => c10_check s | KB b => check_c10 b | KWsL w => wsl_ok w end.
+Definition check (c : case) : bool :=
+  match c with
+  | KScript s => c10_check s | KB b => check_c10 b | KWsL w => wsl_ok w
+  | KPipe s _ clear => pipe_check s clear && c10_check s
+  end.
 Definition agrees (c : case) : bool :=
   match c with
   | KScript c => list_eqb pair_nat_str_eqb (c10_proj (k_obs c)) (c10_proj (model_obs c))
@@ -28,6 +35,7 @@ Definition agrees (c : case) : bool :=
          listener with a TLS part serves TLS only, one without serves plain connections only *)
       (if pok then negb cfg && String.eqb penc (initial_enc (TWs false)) else true) &&
       (if tok then cfg && String.eqb tenc (initial_enc (TWs true)) else true)
+  | KPipe s glued _ => pipe_agrees s glued
   end.
 Definition mismatches (cs : list case) : list nat := bad_indices agrees cs.
 Definition violations (cs : list case) : list nat := bad_indices check cs.
